@@ -19,7 +19,7 @@ RULE = ("Programs: every body of AST size <= S (core grammar + probe leaves) x {
         "full set; programs above the size stated in bounds.full_subsets_size: every single point and the full set) x repetition {1,3} x mode {trickery, referents} the program is re-run with extract() at exactly those points "
         "and must produce the same event log, yielded values and outcome as the unobserved twin; consecutive extractions of the "
         "unchanged target must compare equal; afterwards weakrefs to every manager, the target and its frame must be dead and "
-        "the same for nine hand-written programs: four whose frame holds a manager with a staticmethod __exit__ (trickery analysis fails and falls back) three whose `as` targets cannot be described (the analysis gives up on the target on every extraction), and two with a class body / an exec with its own locals mapping between the target frame and the probe; refcounts of value-stack objects unchanged by 4 extract-and-drop rounds. Chains: same for every chain spec of length "
+        "Release: three targets (generator, generator observed from a nested call, coroutine) abandoned inside their with-block with the cyclic collector switched off, having extracted themselves twice while running (extract(self) / StackSlice from their own frame, both modes): dropping the last reference must finalise them on the spot exactly as in the unobserved twin. The same for nine hand-written programs: four whose frame holds a manager with a staticmethod __exit__ (trickery analysis fails and falls back) three whose `as` targets cannot be described (the analysis gives up on the target on every extraction), and two with a class body / an exec with its own locals mapping between the target frame and the probe; refcounts of value-stack objects unchanged by 4 extract-and-drop rounds. Chains: same for every chain spec of length "
         "<= N and every subset of its positions. A worker dying on a signal is a violation. evaluations = observed re-runs; "
         "distinct_nontrivial = distinct (program, kind, path) / chain specs with >= 1 observation point.")
 ASSUMPTIONS = ["n > 6 observation points: subsets of size <= 2 plus the full set (stated cap, fully enumerated below it)"]
@@ -496,14 +496,170 @@ def run_chain(ctx):
     lowlevel.set_trickery_enabled(None)
 
 
+# ------------------------------------------------------------------ release by reference counting alone
+RELEASE_SRC = {
+    "gen": """
+def target(rt):
+    with Mgr(rt, 'outer'):
+        for x in Countdown(rt, 2):
+            rt.observe()
+            yield x
+""",
+    "gen_nested_call": """
+def helper(rt):
+    rt.observe()
+
+def target(rt):
+    with Mgr(rt, 'outer'):
+        for x in Countdown(rt, 2):
+            helper(rt)
+            yield x
+""",
+    "coro": """
+async def target(rt):
+    async with AMgr(rt, 'outer'):
+        for x in Countdown(rt, 2):
+            rt.observe()
+            await trap(x)
+""",
+}
+
+
+def release_case(name, how, mode):
+    """A target that is abandoned half-way (inside its with-block, its loop iterator living on the value stack only):
+    with the cyclic collector switched off, dropping the last reference must finalise it on the spot - managers exit,
+    everything is freed - exactly as in the unobserved twin.  `how`: which extraction the running target performs on
+    itself (twice, results compared and dropped).  Returns problems."""
+    import stackscope
+    from stackscope import lowlevel
+
+    class Rt(object):
+        def __init__(s, observed):
+            s.log = []
+            s.wrs = []
+            s.observed = observed
+            s.me = None
+
+        def observe(s):
+            if not s.observed:
+                return
+            # both extractions in ONE expression: while the second one runs, the first result sits on the value stack, not
+            # in a local (a frame's f_locals snapshot that contains an earlier Stack of that very frame is a cycle of
+            # CPython's making, not of stackscope's)
+            with warnings.catch_warnings():
+                warnings.simplefilter("ignore")
+                if how == "extract(self)":
+                    pair = (stackscope.extract(s.me), stackscope.extract(s.me))
+                elif how == "extract_since(None)":
+                    pair = (stackscope.extract_since(None), stackscope.extract_since(None))
+                else:
+                    pair = (stackscope.extract(stackscope.StackSlice(outer=(getattr(s.me, "gi_frame", None) or getattr(s.me, "cr_frame", None)))),
+                            stackscope.extract(stackscope.StackSlice(outer=(getattr(s.me, "gi_frame", None) or getattr(s.me, "cr_frame", None)))))
+            if pair[0].error is None and pair[1].error is None and [f.pyframe for f in pair[0].frames] != [f.pyframe for f in pair[1].frames]:
+                s.log.append("two extractions differ")
+            del pair
+
+    class Mgr(object):
+        def __init__(s, rt, nm):
+            s.rt, s.nm = rt, nm
+            rt.wrs.append(("manager", weakref.ref(s)))
+
+        def __enter__(s):
+            s.rt.log.append(("enter", s.nm))
+            return s
+
+        def __exit__(s, et, ev, tb):
+            s.rt.log.append(("exit", s.nm, et.__name__ if et else None))
+            return False
+
+    class AMgr(Mgr):
+        async def __aenter__(s):
+            return s.__enter__()
+
+        async def __aexit__(s, et, ev, tb):
+            return s.__exit__(et, ev, tb)
+
+    class Countdown(object):
+        def __init__(s, rt, n):
+            s.n = n
+            rt.wrs.append(("value-stack iterator", weakref.ref(s)))
+
+        def __iter__(s):
+            return s
+
+        def __next__(s):
+            if s.n == 0:
+                raise StopIteration
+            s.n -= 1
+            return s.n
+    ns = {"Mgr": Mgr, "AMgr": AMgr, "Countdown": Countdown, "trap": ps.trap}
+    exec(compile(RELEASE_SRC[name], "<release>", "exec"), ns)
+
+    def one(observed):
+        rt = Rt(observed)
+        t = ns["target"](rt)
+        rt.me = t
+        rt.wrs.append(("target", weakref.ref(t)))
+        t.send(None)
+        rt.me = None
+        del t
+        rt.log.append("last reference dropped")
+        alive = [what for what, w in rt.wrs if w() is not None]
+        return rt.log, alive
+    lowlevel.set_trickery_enabled(mode)
+    gc.collect()
+    was = gc.isenabled()
+    gc.disable()
+    try:
+        one(True)       # warm-up (lazy initialisation inside the library)
+        log0, alive0 = one(False)
+        log1, alive1 = one(True)
+    finally:
+        if was:
+            gc.enable()
+        lowlevel.set_trickery_enabled(None)
+    problems = []
+    if log1 != log0:
+        problems.append("release: the observed run finalises differently: %r, unobserved %r" % (log1, log0))
+    if alive1 != alive0:
+        problems.append("release: still alive right after the last reference was dropped (collector off): %r, unobserved twin %r" % (alive1, alive0))
+    return problems
+
+
+def release_cases():
+    for name in sorted(RELEASE_SRC):
+        # (not extract_since(None): that also reads the f_locals of the DRIVER's frames, and CPython's cached f_locals
+        # snapshot of a driver frame that names the target keeps it alive until that frame's locals are read again)
+        for how in ("extract(self)", "StackSlice(outer=own frame)"):
+            for mode in (True, False):
+                yield {"leg": "release", "name": name, "how": how, "mode": mode}
+
+
+def run_release(ctx):
+    for case in release_cases():
+        problems = release_case(case["name"], case["how"], case["mode"])
+        ctx.count("evaluations")
+        ctx.count("release_cases")
+        if problems:
+            ctx.violation(case, "; ".join(problems)[:1500], "release")
+
+
 def run(ctx):
     if ctx.args.get("leg") == "chain":
         run_chain(ctx)
     else:
+        if ctx.shard == 0:
+            run_release(ctx)
         run_prog(ctx)
 
 
 def replay(case):
+    if case.get("leg") == "release":
+        return [{"detail": p} for p in release_case(case["name"], case["how"], case["mode"])]
+    return _replay(case)
+
+
+def _replay(case):
     from stackscope import lowlevel
     if case.get("leg") == "chain":
         s = case["spec"]
